@@ -24,6 +24,7 @@ def enc(b):
 
 
 ENCODING = ["utf-8"]  # encoding option of the index under test (set per run by the engine)
+TEXT_ANCHORS = [False]  # rule anchors handed to the constructor / clear() as text where they decode
 
 
 def dec(s):
@@ -64,6 +65,18 @@ class Sut(object):
         else:
             SEAM.uninstall()
 
+    def _anchors(self, rules):
+        if rules is None or not TEXT_ANCHORS[0]:
+            return dict(rules) if rules is not None else None
+        out = {}
+        for a, p in rules.items():
+            try:
+                s_ = a.decode(self.encoding)
+                out[s_ if s_.encode(self.encoding) == a else a] = p
+            except (UnicodeDecodeError, AttributeError):
+                out[a] = p
+        return out
+
     def open(self, default_rule, rules, overwrite=False):
         from traph import Traph
 
@@ -73,7 +86,7 @@ class Sut(object):
             overwrite=overwrite,
             encoding=self.encoding,
             default_webentity_creation_rule=default_rule,
-            webentity_creation_rules=dict(rules),
+            webentity_creation_rules=self._anchors(rules),
         )
         return self.traph
 
@@ -87,7 +100,7 @@ class Sut(object):
 
     def clear(self, default_rule, rules):
         self._select()
-        self.traph.clear(default_rule, dict(rules) if rules is not None else None)
+        self.traph.clear(default_rule, self._anchors(rules))
 
     # raw store bytes
     def stores(self):
@@ -172,6 +185,8 @@ def resolve_refs(op, model):
             r["weid"] = cur
         elif mode == "wrong":
             r["weid"] = (cur or 0) + 1000
+        elif mode in ("none", "zero"):
+            r["weid"] = None if mode == "none" else 0  # "no owner given", spelled another way
         else:
             r["weid"] = False
     elif k == "move_prefix":
@@ -185,6 +200,8 @@ def resolve_refs(op, model):
             r["source"] = cur
         elif mode == "wrong":
             r["source"] = (cur or 0) + 1000
+        elif mode in ("none", "zero"):
+            r["source"] = None if mode == "none" else 0
         else:
             r["source"] = False
     elif k == "remove_rule":
